@@ -87,6 +87,9 @@ type ExecD struct {
 	// CtxKind 1: the directive gets a user-defined context.Context type
 	// (engine.UserCtx) instead of a standard cancel context.
 	CtxKind int `json:"ctx_kind,omitempty"`
+	// AtErr k > 0 (CtxKind 1, CancelExternal): the outside party ends the context while the
+	// directive's caller is parked inside its k-th call of ctx.Err(), instead of after DelaySteps.
+	AtErr int `json:"at_err,omitempty"`
 	// After k>0: this (top-level) execution is only called once execution k-1
 	// has returned: repeated, sequential use of directives in one process.
 	After int `json:"after,omitempty"`
@@ -274,7 +277,8 @@ type execRun struct {
 
 	inflight, maxInfl int
 	ctxBad            int
-	elemOrd           [64]int // started element calls per collection
+	elemOrd           [64]int         // started element calls per collection
+	uc                *engine.UserCtx // CtxKind 1: the user-defined context of this execution
 	postWaitSet       bool
 	postWaitErr       error
 	nextEm            int
@@ -437,6 +441,14 @@ func (x *execRun) isStarted() bool { return x.started }
 //go:norace
 func (x *execRun) setLastErr(e error) { x.lastErr = e }
 
+// ctxErrQuiet is the harness's own look at the directive's context: no scheduling point.
+func (x *execRun) ctxErrQuiet(ctx context.Context) error {
+	if x.uc != nil {
+		return x.uc.ErrQuiet()
+	}
+	return ctx.Err()
+}
+
 //go:norace
 func (x *execRun) notePostWait(e error) {
 	if !x.postWaitSet {
@@ -461,6 +473,7 @@ func flagReturned(i int) int { return i }
 func flagCtxReady(i int) int { return 16 + i }
 func flagPredSeen(i int) int { return 32 + i }
 func ctrBarrier(i int) int   { return 16 + i }
+func ctrErrCalls(i int) int  { return 32 + i } // Err() calls on a user-defined context by the directive's caller
 
 // hh implements rt.H for one execution.
 type hh struct{ x *execRun }
@@ -938,15 +951,36 @@ func (e *recEmitter) ParallelInit(*cff.ParallelInfo) cff.ParallelEmitter { retur
 func (e *recEmitter) SchedulerInit(*cff.SchedulerInfo) cff.SchedulerEmitter {
 	return (*recSched)(e)
 }
-func (e *recEmitter) FlowSuccess(context.Context)             { e.rec(EmFlowSuccess, "", nil, nil) }
-func (e *recEmitter) FlowError(_ context.Context, err error)  { e.rec(EmFlowError, "", err, nil) }
+
+// slowAfterWait: a slow emitter holds whoever reports the directive's outcome for a step.
+// Outcomes are reported after Wait has returned: what "the context was (not) done when the
+// directive returned" means is fixed at this point (see TaskSkipped).
+func (e *recEmitter) slowAfterWait(ctx context.Context) {
+	if e.x.d.SlowEmit && e.k == 0 {
+		e.x.notePostWait(e.x.ctxErrQuiet(ctx))
+		e.x.r.sim.Yield(engine.HsMisc)
+	}
+}
+
+func (e *recEmitter) FlowSuccess(ctx context.Context) {
+	e.rec(EmFlowSuccess, "", nil, nil)
+	e.slowAfterWait(ctx)
+}
+func (e *recEmitter) FlowError(ctx context.Context, err error) {
+	e.rec(EmFlowError, "", err, nil)
+	e.slowAfterWait(ctx)
+}
 func (e *recEmitter) FlowDone(context.Context, time.Duration) { e.rec(EmFlowDone, "", nil, nil) }
 
 type recPar recEmitter
 
-func (e *recPar) ParallelSuccess(context.Context) { (*recEmitter)(e).rec(EmFlowSuccess, "", nil, nil) }
-func (e *recPar) ParallelError(_ context.Context, err error) {
+func (e *recPar) ParallelSuccess(ctx context.Context) {
+	(*recEmitter)(e).rec(EmFlowSuccess, "", nil, nil)
+	(*recEmitter)(e).slowAfterWait(ctx)
+}
+func (e *recPar) ParallelError(ctx context.Context, err error) {
 	(*recEmitter)(e).rec(EmFlowError, "", err, nil)
+	(*recEmitter)(e).slowAfterWait(ctx)
 }
 func (e *recPar) ParallelDone(context.Context, time.Duration) {
 	(*recEmitter)(e).rec(EmFlowDone, "", nil, nil)
@@ -994,7 +1028,7 @@ func (t *recTask) TaskSkipped(ctx context.Context, err error) {
 		// a slow emitter: whoever reports the skip is held for a step. Skips are reported after
 		// Wait has returned, so from here on the context may end without the directive having to
 		// notice: what "the context was (not) done when the directive returned" means is fixed now.
-		t.e.x.notePostWait(ctx.Err())
+		t.e.x.notePostWait(t.e.x.ctxErrQuiet(ctx))
 		t.e.x.r.sim.Yield(engine.HsMisc)
 	}
 	t.e.rec(EmTaskSkipped, t.name, err, nil)
@@ -1034,6 +1068,11 @@ func (r *runner) runExec(x *execRun, parent context.Context) {
 	ctx, cancel := context.WithCancel(base)
 	if d.CtxKind == 1 && d.CancelMode != CancelDeadline && x.parent == nil && len(d.Nest) == 0 {
 		uc := engine.NewUserCtx(ctx) // ctx: live standard parent, released at the end
+		uc.YieldIn(sim)
+		if d.AtErr > 0 && i < 16 {
+			uc.CountCalls(sim, ctrErrCalls(i))
+		}
+		x.uc = uc
 		stdCancel := cancel
 		ctx, cancel = context.WithValue(uc, ctxKey{}, x.token), func() { uc.Cancel(); stdCancel() }
 	}
@@ -1077,7 +1116,7 @@ func (r *runner) runExec(x *execRun, parent context.Context) {
 		}()
 		res, err = x.fn(uctx, h, d.Params)
 	}()
-	ctxErr := ctx.Err()
+	ctxErr := x.ctxErrQuiet(ctx)
 	if set, e := x.postWait(); set {
 		ctxErr = e
 	}
@@ -1090,6 +1129,9 @@ func (r *runner) runExec(x *execRun, parent context.Context) {
 	x.log(EvRet, -1, 0, nil, 0, 0)
 	x.setReturned(res, err, ctxErr, propagated)
 	sim.SetFlag(flagReturned(i))
+	if d.AtErr > 0 && i < 16 {
+		sim.AddCounter(ctrErrCalls(i), 1<<20) // release a canceller still waiting for a look that never came
+	}
 	sim.SetFlag(flagPredSeen(i)) // release a provider still held for the predicate-promptness probe
 	x.log(EvCleanup, -1, 0, nil, 0, 0)
 	cancel()
@@ -1100,6 +1142,17 @@ func (r *runner) canceller(i int) {
 	sim := r.sim
 	sim.Hold(engine.HoldFlag, flagCtxReady(i), 0)
 	_ = x.ctxPub.Load()
+	if x.d.AtErr > 0 && x.d.CtxKind == 1 && i < 16 {
+		// the context ends while the directive's caller is inside its AtErr-th look at it
+		sim.Hold(engine.HoldCounter, ctrErrCalls(i), x.d.AtErr)
+		if sim.Aborted() || sim.Flag(flagReturned(i)) {
+			return
+		}
+		x.log(EvCancel, -1, 0, nil, 0, 0)
+		x.count(&x.cancelFired)
+		x.getCancel()()
+		return
+	}
 	for k := 0; k < x.d.DelaySteps; k++ {
 		sim.Yield(engine.HsMisc)
 		if sim.Flag(flagReturned(i)) {
